@@ -49,10 +49,10 @@ PROPS = {
         not_decided="the glue: that decode_text_string is that per-byte map and that each emission site emits those bytes (String/iterator code outside both verifiers); UTF-16BE/BOM path of incremental_text_notes::pdf_text",
     ),
     "C24": dict(
-        verus=["pngunfilter"],
+        verus=["pngunfilter", "alphasplit"],
         standins=["png-grid", "image-alpha"],
         kani=[K("c24_paeth_predictor_png_spec", "graphics/png_decoder.rs", "paeth_predictor")],
-        not_decided="inflate (dependency), unfilter_row pending, bit-depth expansion, palettes, tRNS, interlace, XObject assembly, SMask",
+        not_decided="inflate (dependency), bit-depth expansion, palettes, tRNS, interlace, XObject / SMask dictionary assembly and its Flate encoding (stand-in image-alpha only); proved: unfilter_row against the PNG filter definitions, row geometry of decode_image_data without overflow, separate_alpha (colour and alpha planes are the de-interleaved samples), from_rgba_data / from_gray_data accept exactly width x height pixels and split them",
     ),
     "C25": dict(
         standins=["enc-tables"],
